@@ -137,6 +137,13 @@ def gen(rng, positive_only):
         body.append(f"mon.write(int({name}.get_state()))")
         body.append(f"mon.write({name}.get_frequency())")
         body.append(f"mon.write({name}.get_last_frequency())")
+        if rng.random() < 0.35:
+            # the same getters through freshly assigned variables: a variable holds what the getter returned (fractions included)
+            body.append(f"gf{k} = {name}.get_frequency()")
+            body.append(f"mon.write(gf{k})")
+            body.append(f"gl{k} = {name}.get_last_frequency()")
+            body.append(f"mon.write(gl{k})")
+            c["via_var"] = True
         calls.append(c)
     rebind = None
     lines += defs
@@ -201,8 +208,13 @@ def monitor(events, calls, buzzers, in_loop):
     # getter prints follow each marker: collect the three SER values that start the next segment
     for i, (k, seg) in enumerate(segs):
         nxt = segs[i + 1][1] if i + 1 < len(segs) else cur
-        vals = [f for (t, kind, f) in nxt if kind == "SER"][:3]
+        allv = [f for (t, kind, f) in nxt if kind == "SER"]
+        vals = allv[:3]
         getters[k] = vals
+        if k < len(calls) and calls[k].get("via_var") and len(allv) >= 5:
+            if allv[3][1] != allv[1][1] or allv[4][1] != allv[2][1]:
+                problems.append(("getter-via-variable", f"call #{k}: get_frequency()/get_last_frequency() printed {allv[1][1]}/{allv[2][1]} directly but {allv[3][1]}/{allv[4][1]} "
+                                 "after being stored in a variable"))
     seen = 0
     for k, seg in segs:
         if k >= len(calls):
